@@ -207,6 +207,7 @@ struct px_srec {
     void *req;          /* REGISTER / UNREGISTER */
     int req_type;
     bool had_pump;      /* INPUT: upump_p non-NULL */
+    int thread;         /* px_self_fn() when recorded (-1 if unset) */
 };
 
 struct px_erec {
@@ -215,7 +216,12 @@ struct px_erec {
     int event;
     int arg;            /* log level / error code */
     char text[64];
+    int thread;         /* px_self_fn() when recorded (-1 if unset) */
 };
+
+/* optional: identity of the calling (virtual) thread, set by vsched harnesses */
+static int (*px_self_fn)(void);
+static inline int px_self(void) { return px_self_fn ? px_self_fn() : -1; }
 
 #define PX_MAXS 160
 #define PX_MAXE 600
@@ -332,6 +338,7 @@ static inline struct px_srec *px_slog(struct px_fix *fx, int sink, int kind)
     r->seq = -1;
     r->size = -1;
     r->flow_id = -1;
+    r->thread = px_self();
     return r;
 }
 
@@ -473,6 +480,7 @@ static int px_rec_throw(struct uprobe *uprobe, struct upipe *upipe, int event, v
         e->event = event;
         e->arg = 0;
         e->text[0] = 0;
+        e->thread = px_self();
         va_list copy;
         va_copy(copy, args);
         if (event == UPROBE_LOG) {
